@@ -3,7 +3,7 @@
    the extracted Coq datatypes.  No Extract Constant. *)
 From Coq Require Import Extraction ExtrOcamlBasic.
 From Tabula Require Import base.Val.
-From Tabula Require Import model.C05_Run model.C17_Run model.C08_Run model.C13_Run model.C20_Run model.C11_Run model.C14_Run model.C10_Run model.C15_Run model.C18_Run model.C16_Run model.C12_Run model.C19_Run model.C07_Run model.C06_Run model.C04_Run model.C09_Run model.C03_Run model.C01_Run.
+From Tabula Require Import model.C05_Run model.C17_Run model.C08_Run model.C13_Run model.C20_Run model.C11_Run model.C14_Run model.C10_Run model.C15_Run model.C18_Run model.C16_Run model.C12_Run model.C19_Run model.C07_Run model.C06_Run model.C04_Run model.C09_Run model.C03_Run model.C01_Run model.C02_Run.
 Extraction Language OCaml.
 Extraction "model.ml" Z.add Z.mul Z.sub Z.div Z.modulo Z.of_N Z.to_N N.of_nat Z.of_nat
-  run_C05 run_C17 run_C08 run_C13 run_C20 run_C11 run_C14 run_C10 run_C15 run_C18 run_C16 run_C12 run_C19 run_C07 run_C06 run_C04 run_C09 run_C03 run_C01.
+  run_C05 run_C17 run_C08 run_C13 run_C20 run_C11 run_C14 run_C10 run_C15 run_C18 run_C16 run_C12 run_C19 run_C07 run_C06 run_C04 run_C09 run_C03 run_C01 run_C02.
